@@ -291,6 +291,15 @@ def shrink(case, site, cls):
     return cur
 
 
+def report(ctx, case, site, cls, detail):
+    """record a predicate failure with a shrunk, replayable case (detail recomputed on the shrunk case)"""
+    small = shrink(case, site, cls)
+    for s2, k2, d2 in pred(small, safe_impl(small)):
+        if s2 == site and k2 == cls:
+            detail = d2
+    ctx.violation(site, cls, dict(small, replay_py=py_replay(small)), detail=detail)
+
+
 def py_replay(case):
     n = case["net"]
     return (f"import xgi; H=xgi.Hypergraph(); H.add_nodes_from({n['nodes']!r}); "
@@ -348,8 +357,7 @@ def evaluate(ctx, cases, label):
                 for k in ("sed_norm", "sf"):
                     ctx.stats[f"{k}:" + ("nan" if r[k] == "nan" else "0" if r[k] == 0 else "1" if r[k] == 1 else "(0,1)")] += 1
         for site, cls, detail in pred(c, r):
-            small = shrink(c, site, cls)
-            ctx.violation(site, cls, dict(small, replay_py=py_replay(small)), detail=detail)
+            report(ctx, c, site, cls, detail)
         ctx.sample({"request": c, "impl": r}, cap=3)
     resps = run_driver("C15", cases) if cases else []
     dis = []
@@ -461,8 +469,7 @@ def run(ctx):
                 ctx.evaluations += 1
                 ctx.stats["cases:targeted-search"] += 1
                 for site, cls, detail in pred(c, r):
-                    small = shrink(c, site, cls)
-                    ctx.violation(site, cls, dict(small, replay_py=py_replay(small)), detail=detail)
+                    report(ctx, c, site, cls, detail)
 
     conclude(ctx, ok and not bad and not any("spec differ" in b for b in ctx.broken), dis, search)
     ctx.exhaustive = not ctx.quick
